@@ -1,6 +1,6 @@
 // extract regenerates Lean source from /repo's *current* Go source (working tree).
 //
-// It is deliberately tiny and works on a whitelist: anything it does not recognise is an error
+// It is deliberately small and works on a whitelist: anything it does not recognise is an error
 // (exit 2), never a guess.  Output:
 //
 //	<out>/CRC.lean     the 256-entry table, the loop body of updateCRC32 and the init constant
@@ -11,6 +11,13 @@
 //	<out>/Facts.lean   structural facts: package-level vars, NextBytesNoCopy result uses,
 //	                   order of tests in packetAccumulator.add, writers returning the batch latch
 //	<out>/facts.json   the same facts for the evidence files
+//
+// The translation is meant to be insensitive to behaviour-preserving refactorings of /repo as far as
+// that is possible without guessing: parameter and receiver names are read from the AST, local
+// variables are substituted, guard clauses / switches / single expressions give the same kind of
+// term, and a call of another function of the package is followed (pure.go for CRC.lean and
+// Exprs.lean, inlineTerm in lengths.go for Lengths.lean).  What the generated definitions MEAN is
+// checked by the tie theorems in lean/Astits/Props, whose proofs do not depend on their shape.
 package main
 
 import (
@@ -150,10 +157,12 @@ func (p *pkgInfo) evalConst(e ast.Expr, depth int) (int64, bool) {
 			return p.evalConst(c, depth+1)
 		}
 		return 0, false
-	case *ast.CallExpr: // conversion T(x)
+	case *ast.CallExpr: // conversion T(x) to an integer type
 		if len(e.Args) == 1 {
-			if _, ok := e.Fun.(*ast.Ident); ok {
-				return p.evalConst(e.Args[0], depth+1)
+			if id, ok := e.Fun.(*ast.Ident); ok {
+				if _, named := p.types[id.Name]; basicConversions[id.Name] || named {
+					return p.evalConst(e.Args[0], depth+1)
+				}
 			}
 		}
 		return 0, false
@@ -174,208 +183,221 @@ func (p *pkgInfo) evalConst(e ast.Expr, depth int) (int64, bool) {
 			return a << uint(b), true
 		case token.OR:
 			return a | b, true
+		case token.AND:
+			return a & b, true
+		case token.XOR:
+			return a ^ b, true
+		case token.AND_NOT:
+			return a &^ b, true
+		case token.SHR:
+			return a >> uint(b), true
+		case token.QUO:
+			if b != 0 {
+				return a / b, true
+			}
+		case token.REM:
+			if b != 0 {
+				return a % b, true
+			}
 		}
 	}
 	return 0, false
 }
 
-// ---- expression translation: Go expression -> Lean term ----
+// ---- crc32.go: typed translation to fixed-width bit vectors ----
 //
-// mode "bv32": every value is a BitVec 32 (used for crc32.go)
-// mode "nat":  integers are Nat (all operands in the whitelisted functions are unsigned and the
-//              results are re-masked by the model; widths are handled in the Lean tie lemmas)
+// Every value is a BitVec of the width of its Go type (uint32 -> BitVec 32, byte -> BitVec 8, …):
+// conversions are setWidth (zero extension / truncation), the operators are BitVec's (which wrap
+// exactly like Go's unsigned arithmetic), untyped constants take the width of the other operand.
 
-type tr struct {
-	p     *pkgInfo
-	mode  string
-	subst map[string]string // identifier -> Lean term
+type bvVal struct {
+	lean  string
+	bits  int   // 0: untyped constant
+	val   int64 // value of the constant
+	isVar bool
 }
 
-func (t *tr) lit(v int64) string {
-	if t.mode == "bv32" {
-		return fmt.Sprintf("%d#32", uint32(v))
+type bvtr struct {
+	p    *pkgInfo
+	vars map[string]bvVal
+}
+
+var bvWidths = map[string]int{"uint8": 8, "byte": 8, "uint16": 16, "uint32": 32, "uint64": 64}
+
+func (t *bvtr) die(e ast.Expr, format string, a ...interface{}) {
+	die("crc32.go (%s): %s: %s", fset.Position(e.Pos()), canon(e), fmt.Sprintf(format, a...))
+}
+
+// typed: a constant at a given width
+func (t *bvtr) typed(e ast.Expr, v bvVal, bits int) bvVal {
+	if v.bits != 0 {
+		if v.bits != bits {
+			t.die(e, "operand of width %d used at width %d", v.bits, bits)
+		}
+		return v
 	}
-	return fmt.Sprintf("%d", v)
+	if v.val < 0 || (bits < 63 && v.val >= int64(1)<<uint(bits)) {
+		t.die(e, "constant %d does not fit %d bits", v.val, bits)
+	}
+	return bvVal{lean: fmt.Sprintf("%d#%d", uint64(v.val), bits), bits: bits}
 }
 
-func (t *tr) expr(e ast.Expr) string {
+func (t *bvtr) ex(e ast.Expr) bvVal {
+	if v, ok := t.p.evalConst(e, 0); ok {
+		return bvVal{val: v}
+	}
 	switch e := e.(type) {
 	case *ast.ParenExpr:
-		return "(" + t.expr(e.X) + ")"
-	case *ast.BasicLit:
-		v, ok := t.p.evalConst(e, 0)
-		if !ok {
-			die("untranslatable literal %s", e.Value)
-		}
-		return t.lit(v)
+		return t.ex(e.X)
 	case *ast.Ident:
-		if s, ok := t.subst[e.Name]; ok {
-			return s
+		if v, ok := t.vars[e.Name]; ok {
+			return v
 		}
-		if e.Name == "true" || e.Name == "false" {
-			return e.Name
-		}
-		if v, ok := t.p.evalConst(e, 0); ok {
-			return t.lit(v)
-		}
-		die("unknown identifier %s at %s", e.Name, fset.Position(e.Pos()))
-	case *ast.SelectorExpr:
-		s := t.sel(e)
-		if r, ok := t.subst[s]; ok {
-			return r
-		}
-		die("unknown selector %s at %s", s, fset.Position(e.Pos()))
-	case *ast.CallExpr:
-		if id, ok := e.Fun.(*ast.Ident); ok && len(e.Args) == 1 {
-			switch id.Name {
-			case "uint8", "uint16", "uint32", "uint64", "int", "int64", "PSITableID", "byte":
-				// conversion of an operand that already fits: identity in the model domain
-				return t.expr(e.Args[0])
-			case "len":
-				return "(" + t.expr(e.Args[0]) + ").length"
-			}
-		}
-		// method call on a known receiver, e.g. tableID.isUnknown()
-		if se, ok := e.Fun.(*ast.SelectorExpr); ok && len(e.Args) == 0 {
-			recv := t.expr(se.X)
-			return "(G" + se.Sel.Name + " " + recv + ")"
-		}
-		die("untranslatable call at %s", fset.Position(e.Pos()))
+		t.die(e, "unknown identifier")
 	case *ast.IndexExpr:
-		if id, ok := e.X.(*ast.Ident); ok && id.Name == "tableCRC32" {
-			return "crcTable.getD (" + t.expr(e.Index) + ").toNat 0#32"
+		if id, ok := e.X.(*ast.Ident); !ok || id.Name != "tableCRC32" {
+			t.die(e, "only tableCRC32 can be indexed")
 		}
-		s := t.exprKey(e)
-		if r, ok := t.subst[s]; ok {
-			return r
+		i := t.ex(e.Index)
+		if i.bits == 0 {
+			if i.val < 0 || i.val > 255 {
+				t.die(e, "constant index out of range")
+			}
+			return bvVal{lean: fmt.Sprintf("crcTable.getD %d 0#32", i.val), bits: 32}
 		}
-		die("untranslatable index %s at %s", s, fset.Position(e.Pos()))
+		return bvVal{lean: "crcTable.getD (" + i.lean + ").toNat 0#32", bits: 32}
+	case *ast.CallExpr:
+		if c, a, b, ok := isIte(e); ok {
+			x, y := t.ex(a), t.ex(b)
+			bits := x.bits
+			if bits == 0 {
+				bits = y.bits
+			}
+			if bits == 0 {
+				t.die(e, "conditional between untyped constants")
+			}
+			x, y = t.typed(a, x, bits), t.typed(b, y, bits)
+			return bvVal{lean: "(if " + t.cond(c) + " then " + x.lean + " else " + y.lean + ")", bits: bits}
+		}
+		if w, ok := bvWidths[canon(e.Fun)]; ok && len(e.Args) == 1 {
+			x := t.ex(e.Args[0])
+			switch {
+			case x.bits == 0:
+				return t.typed(e, x, w)
+			case x.bits == w:
+				return x
+			}
+			return bvVal{lean: "(" + x.lean + ".setWidth " + fmt.Sprint(w) + ")", bits: w}
+		}
+		t.die(e, "unsupported call")
+	case *ast.BinaryExpr:
+		x, y := t.ex(e.X), t.ex(e.Y)
+		switch e.Op {
+		case token.SHL, token.SHR:
+			if x.bits == 0 {
+				t.die(e, "shift of an untyped constant by a variable")
+			}
+			op := map[token.Token]string{token.SHL: "<<<", token.SHR: ">>>"}[e.Op]
+			if y.bits == 0 {
+				if y.val < 0 {
+					t.die(e, "negative shift count")
+				}
+				return bvVal{lean: fmt.Sprintf("(%s %s %d)", x.lean, op, y.val), bits: x.bits}
+			}
+			return bvVal{lean: "(" + x.lean + " " + op + " " + y.lean + ")", bits: x.bits}
+		}
+		bits := x.bits
+		if bits == 0 {
+			bits = y.bits
+		}
+		x, y = t.typed(e.X, x, bits), t.typed(e.Y, y, bits)
+		switch e.Op {
+		case token.XOR, token.AND, token.OR, token.ADD, token.SUB, token.MUL:
+			op := map[token.Token]string{token.XOR: "^^^", token.AND: "&&&", token.OR: "|||", token.ADD: "+", token.SUB: "-", token.MUL: "*"}[e.Op]
+			return bvVal{lean: "(" + x.lean + " " + op + " " + y.lean + ")", bits: bits}
+		case token.AND_NOT:
+			return bvVal{lean: "(" + x.lean + " &&& ~~~" + y.lean + ")", bits: bits}
+		}
+		t.die(e, "unsupported operator %s", e.Op)
+	}
+	t.die(e, "unsupported expression")
+	return bvVal{}
+}
+
+// cond: a Go bool expression as a Lean Bool
+func (t *bvtr) cond(e ast.Expr) string {
+	switch e := e.(type) {
+	case *ast.ParenExpr:
+		return t.cond(e.X)
 	case *ast.UnaryExpr:
 		if e.Op == token.NOT {
-			return "(!" + t.expr(e.X) + ")"
+			return "(!" + t.cond(e.X) + ")"
 		}
 	case *ast.BinaryExpr:
-		a, b := t.expr(e.X), t.expr(e.Y)
 		switch e.Op {
-		case token.SHL:
-			if t.mode == "bv32" {
-				if v, ok := t.p.evalConst(e.Y, 0); ok {
-					return fmt.Sprintf("(%s <<< %d)", a, v)
-				}
-			}
-			return "(" + a + " <<< " + b + ")"
-		case token.SHR:
-			if t.mode == "bv32" {
-				if v, ok := t.p.evalConst(e.Y, 0); ok {
-					return fmt.Sprintf("(%s >>> %d)", a, v)
-				}
-			}
-			return "(" + a + " >>> " + b + ")"
-		case token.XOR:
-			return "(" + a + " ^^^ " + b + ")"
-		case token.AND:
-			return "(" + a + " &&& " + b + ")"
-		case token.OR:
-			return "(" + a + " ||| " + b + ")"
-		case token.ADD:
-			return "(" + a + " + " + b + ")"
-		case token.SUB:
-			return "(" + a + " - " + b + ")"
-		case token.MUL:
-			return "(" + a + " * " + b + ")"
-		case token.REM:
-			return "(" + a + " % " + b + ")"
-		case token.QUO:
-			return "(" + a + " / " + b + ")"
 		case token.LAND:
-			return "(" + a + " && " + b + ")"
+			return "(" + t.cond(e.X) + " && " + t.cond(e.Y) + ")"
 		case token.LOR:
-			return "(" + a + " || " + b + ")"
-		case token.EQL:
-			return "(" + a + " == " + b + ")"
-		case token.NEQ:
-			return "(" + a + " != " + b + ")"
-		case token.LSS:
-			return "(decide (" + a + " < " + b + "))"
-		case token.GTR:
-			return "(decide (" + a + " > " + b + "))"
-		case token.LEQ:
-			return "(decide (" + a + " ≤ " + b + "))"
-		case token.GEQ:
-			return "(decide (" + a + " ≥ " + b + "))"
+			return "(" + t.cond(e.X) + " || " + t.cond(e.Y) + ")"
+		case token.EQL, token.NEQ, token.LSS, token.GTR, token.LEQ, token.GEQ:
+			x, y := t.ex(e.X), t.ex(e.Y)
+			bits := x.bits
+			if bits == 0 {
+				bits = y.bits
+			}
+			if bits == 0 {
+				t.die(e, "constant condition")
+			}
+			x, y = t.typed(e.X, x, bits), t.typed(e.Y, y, bits)
+			switch e.Op {
+			case token.EQL:
+				return "(" + x.lean + " == " + y.lean + ")"
+			case token.NEQ:
+				return "(" + x.lean + " != " + y.lean + ")"
+			}
+			op := map[token.Token]string{token.LSS: "<", token.GTR: ">", token.LEQ: "≤", token.GEQ: "≥"}[e.Op]
+			return "(decide (" + x.lean + " " + op + " " + y.lean + "))" // unsigned order of BitVec
 		}
 	}
-	die("untranslatable expression at %s", fset.Position(e.Pos()))
+	t.die(e, "unsupported condition")
 	return ""
 }
 
-func (t *tr) sel(e *ast.SelectorExpr) string {
-	switch x := e.X.(type) {
-	case *ast.Ident:
-		return x.Name + "." + e.Sel.Name
-	case *ast.SelectorExpr:
-		return t.sel(x) + "." + e.Sel.Name
-	case *ast.IndexExpr:
-		return t.exprKey(x) + "." + e.Sel.Name
-	}
-	die("untranslatable selector at %s", fset.Position(e.Pos()))
-	return ""
-}
-
-// exprKey renders index expressions such as ps[l-1] or bs[0] as lookup keys
-func (t *tr) exprKey(e *ast.IndexExpr) string {
-	var x string
-	switch v := e.X.(type) {
-	case *ast.Ident:
-		x = v.Name
-	default:
-		die("untranslatable index base at %s", fset.Position(e.Pos()))
-	}
-	switch i := e.Index.(type) {
-	case *ast.BasicLit:
-		return x + "[" + i.Value + "]"
-	case *ast.BinaryExpr:
-		if a, ok := i.X.(*ast.Ident); ok {
-			if b, ok := i.Y.(*ast.BasicLit); ok {
-				return x + "[" + a.Name + i.Op.String() + b.Value + "]"
-			}
+// replaceElem replaces every `bs[idx]` (the current element of an indexed loop) by the identifier b
+func replaceElem(e ast.Expr, slice, idx string) ast.Expr {
+	isElem := func(n ast.Expr) bool {
+		ie, ok := n.(*ast.IndexExpr)
+		if !ok {
+			return false
 		}
+		s, ok1 := ie.X.(*ast.Ident)
+		i, ok2 := ie.Index.(*ast.Ident)
+		return ok1 && ok2 && s.Name == slice && i.Name == idx
 	}
-	die("untranslatable index at %s", fset.Position(e.Pos()))
-	return ""
-}
-
-// singleReturn returns the expression of a function whose body is exactly `return <expr>`
-// (optionally preceded by simple `name := expr` definitions, which are inlined).
-func (p *pkgInfo) singleReturn(name string, t *tr) ast.Expr {
-	fd, ok := p.funcs[name]
-	if !ok {
-		die("function %s not found", name)
-	}
-	var ret ast.Expr
-	for _, st := range fd.Body.List {
-		switch s := st.(type) {
-		case *ast.AssignStmt:
-			if len(s.Lhs) == 1 && len(s.Rhs) == 1 && s.Tok == token.DEFINE {
-				if id, ok := s.Lhs[0].(*ast.Ident); ok {
-					t.subst[id.Name] = "(" + t.expr(s.Rhs[0]) + ")"
-					continue
-				}
-			}
-			die("%s: unsupported assignment", name)
-		case *ast.ReturnStmt:
-			if len(s.Results) != 1 {
-				die("%s: unsupported return", name)
-			}
-			ret = s.Results[0]
-		default:
-			die("%s: body is not a single return (%T)", name, st)
+	var rw func(n ast.Expr) ast.Expr
+	rw = func(n ast.Expr) ast.Expr {
+		if isElem(n) {
+			return ast.NewIdent("b")
 		}
+		switch n := n.(type) {
+		case *ast.ParenExpr:
+			return &ast.ParenExpr{X: rw(n.X)}
+		case *ast.IndexExpr:
+			return &ast.IndexExpr{X: rw(n.X), Index: rw(n.Index)}
+		case *ast.UnaryExpr:
+			return &ast.UnaryExpr{Op: n.Op, X: rw(n.X)}
+		case *ast.BinaryExpr:
+			return &ast.BinaryExpr{X: rw(n.X), Op: n.Op, Y: rw(n.Y)}
+		case *ast.CallExpr:
+			c := &ast.CallExpr{Fun: n.Fun}
+			for _, a := range n.Args {
+				c.Args = append(c.Args, rw(a))
+			}
+			return c
+		}
+		return n
 	}
-	if ret == nil {
-		die("%s: no return", name)
-	}
-	return ret
+	return rw(e)
 }
 
 // ---- emitters ----
@@ -406,49 +428,117 @@ func emitCRC(p *pkgInfo, out string) {
 		fmt.Fprintf(&b, " 0x%08X#32", uint32(v))
 	}
 	b.WriteString("]\n\n")
-	// computeCRC32: return updateCRC32(<init>, bs)
-	t := &tr{p: p, mode: "bv32", subst: map[string]string{}}
-	ce := p.singleReturn("computeCRC32", t)
+
+	// computeCRC32(bs) = updateCRC32(<init>, bs), possibly through locals or a helper
+	isUpdate := func(c *ast.CallExpr) bool { id, ok := c.Fun.(*ast.Ident); return ok && id.Name == "updateCRC32" }
+	ce := pureExpr(p, "computeCRC32", []string{"bs"}, isUpdate)
+	for {
+		pe, ok := ce.(*ast.ParenExpr)
+		if !ok {
+			break
+		}
+		ce = pe.X
+	}
 	call, ok := ce.(*ast.CallExpr)
-	if !ok || len(call.Args) != 2 {
-		die("computeCRC32: unexpected body")
+	if !ok || !isUpdate(call) || len(call.Args) != 2 {
+		die("computeCRC32 is not a call of updateCRC32: %s", canon(ce))
 	}
-	if id, ok := call.Fun.(*ast.Ident); !ok || id.Name != "updateCRC32" {
-		die("computeCRC32 does not call updateCRC32")
+	if canon(call.Args[1]) != "bs" {
+		die("computeCRC32 does not pass its argument to updateCRC32: %s", canon(call.Args[1]))
 	}
-	if id, ok := call.Args[1].(*ast.Ident); !ok || id.Name != "bs" {
-		die("computeCRC32 does not pass bs")
-	}
-	fmt.Fprintf(&b, "def crcInit : BitVec 32 := %s\n\n", t.expr(call.Args[0]))
-	// updateCRC32: for _, b := range bs { crc32 = <expr> }; return crc32
+	t := &bvtr{p: p, vars: map[string]bvVal{}}
+	init := t.typed(call.Args[0], t.ex(call.Args[0]), 32)
+	fmt.Fprintf(&b, "def crcInit : BitVec 32 := %s\n\n", init.lean)
+
+	// updateCRC32(crc, bs): one loop over bs that assigns crc, then `return crc`.  Accepted loops:
+	//   for _, b := range bs { … }        for i := range bs { … bs[i] … }
+	//   for i := 0; i < len(bs); i++ { … bs[i] … }
+	// The loop body is reduced to the new value of crc as one expression over crc32 and b (pure.go:
+	// locals are substituted, helper functions are inlined).
 	fd := p.funcs["updateCRC32"]
-	if fd == nil || len(fd.Body.List) != 2 {
-		die("updateCRC32: unexpected shape")
+	if fd == nil || fd.Recv != nil || fd.Body == nil || len(fd.Body.List) != 2 {
+		die("updateCRC32: unexpected shape (want one loop and a return)")
 	}
-	rs, ok := fd.Body.List[0].(*ast.RangeStmt)
-	if !ok || len(rs.Body.List) != 1 {
-		die("updateCRC32: no single range loop")
+	var pnames, ptypes []string
+	for _, f := range fd.Type.Params.List {
+		for _, n := range f.Names {
+			pnames = append(pnames, n.Name)
+			ptypes = append(ptypes, render(f.Type))
+		}
 	}
-	if id, ok := rs.X.(*ast.Ident); !ok || id.Name != "bs" {
-		die("updateCRC32: loop does not range over bs")
+	if len(pnames) != 2 || ptypes[0] != "uint32" || ptypes[1] != "[]byte" || fd.Type.Results == nil ||
+		len(fd.Type.Results.List) != 1 || len(fd.Type.Results.List[0].Names) != 0 || render(fd.Type.Results.List[0].Type) != "uint32" {
+		die("updateCRC32: unexpected signature")
 	}
-	if k, ok := rs.Key.(*ast.Ident); !ok || k.Name != "_" {
-		die("updateCRC32: loop uses the index")
+	crc, bs := pnames[0], pnames[1]
+	var body *ast.BlockStmt
+	elemVar, idxVar := "", ""
+	isIdent := func(e ast.Expr, name string) bool { id, ok := e.(*ast.Ident); return ok && id.Name == name }
+	switch l := fd.Body.List[0].(type) {
+	case *ast.RangeStmt:
+		if !isIdent(l.X, bs) || l.Tok != token.DEFINE {
+			die("updateCRC32: the loop does not range over %s", bs)
+		}
+		body = l.Body
+		switch {
+		case l.Value != nil && (l.Key == nil || isIdent(l.Key, "_")):
+			elemVar = l.Value.(*ast.Ident).Name
+		case l.Value == nil && l.Key != nil && !isIdent(l.Key, "_"):
+			idxVar = l.Key.(*ast.Ident).Name
+		default:
+			die("updateCRC32: the range loop uses both the index and the value")
+		}
+	case *ast.ForStmt:
+		in, ok1 := l.Init.(*ast.AssignStmt)
+		po, ok2 := l.Post.(*ast.IncDecStmt)
+		if !ok1 || !ok2 || in.Tok != token.DEFINE || len(in.Lhs) != 1 || len(in.Rhs) != 1 || l.Cond == nil {
+			die("updateCRC32: unsupported for loop")
+		}
+		idxVar = in.Lhs[0].(*ast.Ident).Name
+		if v, ok := p.evalConst(in.Rhs[0], 0); !ok || v != 0 || po.Tok != token.INC || !isIdent(po.X, idxVar) ||
+			canon(l.Cond) != "("+idxVar+"<len("+bs+"))" {
+			die("updateCRC32: the for loop is not `for i := 0; i < len(%s); i++`", bs)
+		}
+		body = l.Body
+	default:
+		die("updateCRC32: the first statement is not a loop")
 	}
-	as, ok := rs.Body.List[0].(*ast.AssignStmt)
-	if !ok || len(as.Lhs) != 1 || as.Tok != token.ASSIGN {
-		die("updateCRC32: loop body is not one assignment")
+	ast.Inspect(body, func(n ast.Node) bool {
+		switch s := n.(type) {
+		case *ast.ReturnStmt, *ast.BranchStmt, *ast.ForStmt, *ast.RangeStmt, *ast.FuncLit:
+			die("updateCRC32 (%s): unsupported statement in the loop body", fset.Position(s.Pos()))
+		case *ast.AssignStmt:
+			for _, lhs := range s.Lhs {
+				if isIdent(lhs, idxVar) || isIdent(lhs, bs) || isIdent(lhs, elemVar) {
+					die("updateCRC32 (%s): the loop body assigns %s", fset.Position(s.Pos()), render(lhs))
+				}
+			}
+		case *ast.IncDecStmt:
+			if !isIdent(s.X, crc) {
+				die("updateCRC32 (%s): unsupported statement in the loop body", fset.Position(s.Pos()))
+			}
+		}
+		return true
+	})
+	if r, ok := fd.Body.List[1].(*ast.ReturnStmt); !ok || len(r.Results) != 1 || !isIdent(r.Results[0], crc) {
+		die("updateCRC32: does not end with `return %s`", crc)
 	}
-	if id, ok := as.Lhs[0].(*ast.Ident); !ok || id.Name != "crc32" {
-		die("updateCRC32: assignment target")
+	x := &purifier{p: p, name: "updateCRC32"}
+	env := pureEnv{crc: ast.NewIdent("crc32")}
+	if elemVar != "" {
+		env[elemVar] = ast.NewIdent("b")
 	}
-	if r, ok := fd.Body.List[1].(*ast.ReturnStmt); !ok || len(r.Results) != 1 {
-		die("updateCRC32: return")
-	} else if id, ok := r.Results[0].(*ast.Ident); !ok || id.Name != "crc32" {
-		die("updateCRC32: does not return crc32")
+	fr := &pureFrame{x: x}
+	step := fr.block(body.List, env, func(e pureEnv) ast.Expr { return e[crc] })
+	if idxVar != "" {
+		step = replaceElem(step, bs, idxVar)
 	}
-	t2 := &tr{p: p, mode: "bv32", subst: map[string]string{"crc32": "crc32", rs.Value.(*ast.Ident).Name: "b"}}
-	fmt.Fprintf(&b, "/-- loop body of updateCRC32; `b` is the byte zero-extended to 32 bits -/\ndef crcStep (crc32 b : BitVec 32) : BitVec 32 :=\n  %s\n\nend Astits.Generated\n", t2.expr(as.Rhs[0]))
+	t2 := &bvtr{p: p, vars: map[string]bvVal{"crc32": {lean: "crc32", bits: 32, isVar: true}, "b": {lean: "b", bits: 8, isVar: true}}}
+	sv := t2.ex(step)
+	if sv.bits != 32 {
+		die("updateCRC32: the new value of %s is not a uint32", crc)
+	}
+	fmt.Fprintf(&b, "/-- the new value of the running CRC after one iteration of the loop of updateCRC32 on the byte `b` -/\ndef crcStep (crc32 : BitVec 32) (b : BitVec 8) : BitVec 32 :=\n  %s\n\nend Astits.Generated\n", sv.lean)
 	write(filepath.Join(out, "CRC.lean"), b.String())
 }
 
